@@ -47,7 +47,7 @@ theorem no_source_case_no_change (cs : List (List Schema)) (new : Bool) (sbs tbs
 /-- **a read reports the nodes of one case only**, whatever the store holds -/
 theorem read_reports_one_case (ks : List Schema) (body : List Data) (h : conformsBody ks body = true) :
     oneCaseBody (readOut ks body) = true :=
-  oneCaseBody_editKids ks true body (emptyBody ks) h (conformsBody_emptyBody ks) (oneCaseBody_emptyBody ks)
+  oneCaseBody_editKids ks false body (emptyBody ks) h (conformsBody_emptyBody ks) (oneCaseBody_emptyBody ks)
 
 /-! #### the pinned tree looked at the innermost choice only — witness -/
 
